@@ -35,6 +35,68 @@ func sessionSnap(srv *sadns.ServerDnsListener, c net.Conn) string {
 }
 
 func init() {
+	opTimeout["c12r"] = 60 * time.Second
+	// c12r <repeat> <qtype> <qclass> <nquestions> <from-owner 0/1> <#label>*   the same fixture; the message is delivered <repeat> times
+	//  -> unpackable | panic <site> | future <packets parked in the in-queue> inbuf <octets waiting to be read> allocKiB <n> answered <k of repeat>
+	register("c12r", func(a []Tok) []Tok {
+		repeat := int(a[0].I)
+		a = a[1:]
+		nq := int(a[2].I)
+		buf := []byte{0, 77, 0x01, 0, byte(nq >> 8), byte(nq), 0, 0, 0, 0, 0, 0}
+		for i := 0; i < nq; i++ {
+			for _, l := range a[4:] {
+				buf = append(buf, byte(len(l.B)))
+				buf = append(buf, l.B...)
+			}
+			buf = append(buf, 0, byte(a[0].I>>8), byte(a[0].I), byte(a[1].I>>8), byte(a[1].I))
+		}
+		mw := &dns.Msg{}
+		if err := mw.Unpack(buf); err != nil {
+			return []Tok{TW("unpackable")}
+		}
+		sc := &fakeServerComm{}
+		srv := sadns.NewServerDnsListener(testDomain, sc)
+		defer sc.Close()
+		ser := clientSerializer(util.QueryTypeNull, enc.Base32Encoding, enc.Base32Encoding)
+		acc := make(chan net.Conn, 2)
+		go func() {
+			c, err := srv.Accept()
+			if err == nil {
+				acc <- c
+			}
+		}()
+		if _, err := exchange(sc, ser, &commands.VersionRequest{ClientVersion: uint32(sadns.ProtocolVersion)}, addrN(1)); err != nil {
+			return []Tok{TW("setup-failed")}
+		}
+		sess := <-acc
+		exchange(sc, ser, &commands.PacketRequest{UserId: 0, LastAckedSeqNo: 65535, Packet: &util.Packet{SeqNo: 0, Data: []byte("hello")}}, addrN(1))
+		from := net.Addr(addrN(9))
+		if a[3].I == 1 {
+			from = addrN(1)
+		}
+		var ms0, ms1 runtime.MemStats
+		runtime.ReadMemStats(&ms0)
+		answered := 0
+		var out []Tok
+		func() {
+			defer func() {
+				if r := recover(); r != nil {
+					out = []Tok{TW("panic"), TW(panicSite())}
+				}
+			}()
+			for i := 0; i < repeat; i++ {
+				if r, err := sc.handler(mw.Copy(), from); err == nil && r != nil {
+					answered++
+				}
+			}
+		}()
+		if out != nil {
+			return out
+		}
+		runtime.ReadMemStats(&ms1)
+		future, inbuf := sadns.VerifUserIn(sess)
+		return []Tok{TW("future"), TIn(future), TW("inbuf"), TIn(inbuf), TW("allocKiB"), TI(int64(ms1.TotalAlloc-ms0.TotalAlloc) / 1024), TW("answered"), TIn(answered)}
+	})
 	opTimeout["c12s"] = 15 * time.Second
 	// c12s <qtype> <qclass> <nquestions> <from-owner 0/1> <#label>*     (the labels of the question name as they are on the wire)
 	//   an established session (user 0, address 1, one queued downstream chunk) exists; the crafted query is delivered from a foreign
